@@ -194,6 +194,9 @@ func c09SeqMonitor(run *ev.Run, spec world.Spec) hMonitor {
 		if !expired {
 			run.Violation("C09 logout-does-not-expire-cookie", fmt.Sprintf("Set-Cookie %v", o.Res.SetCookies), c01Replay{Spec: spec, History: full})
 		}
+		if o.SID != "" && o.PreHad && !removeEffective && !o.RedisFailed && h.W.HasAnything(o.SID) {
+			run.Violation("C09 logout-success-but-session-kept store="+spec.Store, fmt.Sprintf("logout request %+v carried the cookie of a stored session and was answered with the successful logout redirect, but the session was not removed (no RemoveSession call)", o.Req), c01Replay{Spec: spec, History: full})
+		}
 		if o.SID != "" && removeEffective && h.W.HasAnything(o.SID) {
 			run.Violation("C09 session-survives-logout store="+spec.Store, "after a successful logout the store still holds the session", c01Replay{Spec: spec, History: full})
 		}
@@ -249,6 +252,7 @@ func c09Run(run *ev.Run) {
 		{Store: "memory", Forward: true, Logout: true, Discovery: true, NoLogoutRedirect: true},
 	} {
 		o := hOpts{Spec: spec, Logout: true, Faults: true, RedisFaults: spec.Store == "redis", MaxDev: 1, FaultModes: []string{"before", "after"}, MaxSessions: 2, Advance: true}
+		o.OddCookies = spec.Store == "memory" && !spec.Discovery
 		if spec.Replicas == 2 {
 			o.Faults, o.RedisFaults, o.MaxDev = false, false, 0
 		}
